@@ -241,7 +241,7 @@ def first_case(t):
         return None
     if t[0] in ("cases", "ite"):
         return t
-    for x in t[1:]:
+    for x in (t if isinstance(t[0], tuple) else t[1:]):
         if isinstance(x, tuple):
             r = first_case(x)
             if r is not None:
@@ -278,8 +278,12 @@ def split_cases(vals, conds=(), limit=64, _known=None, _sub=None):
                 continue
             k2 = dict(known)
             k2[node[1]] = r2
-            v2 = {l: sym.rebuild(v, sub, k2) for l, v in vals.items()}
-            out += split_cases(v2, conds + ((node[1], node[2], r2),), limit - 1, k2, sub)
+            s2 = sub
+            if len(r2) == 1 and r2[0][0] == r2[0][1] and node[2] in sym.INT_TYS and node[1][0] != "discr":
+                s2 = dict(sub)
+                s2[node[1]] = sym.C(r2[0][0], node[2])       # pinned to one value: the scrutinee is that constant
+            v2 = {l: sym.rebuild(v, s2, k2) for l, v in vals.items()}
+            out += split_cases(v2, conds + ((node[1], node[2], r2),), limit - 1, k2, s2)
     return out
 
 
